@@ -163,7 +163,6 @@ func (tc *TwoChain) record(res sim.Result) {
 	return
 }
 
-
 // L2Withdraw delivers a user withdrawal on L2 and records the emitted event.
 func (tc *TwoChain) L2Withdraw(user sim.Account, to, l2denom string, amt math.Int) sim.Result {
 	res := tc.L2.L2.Deliver(opchildtypes.NewMsgInitiateTokenWithdrawal(user.String(), to, sdk.NewCoin(l2denom, amt)))
